@@ -61,6 +61,10 @@ impl vstd::std_specs::cmp::PartialEqSpecImpl for PDUType2 {
 }
 """, mod="global", name="derived_eq", trusted="#[derive(PartialEq)] of the field-less enums PDUType / PDUType2 compares the variants (std semantics of the derive)"))
 
+VISIT = """proof {
+    assert forall|d: DataType, m: MV| #[trigger] dt_matches(d, m) && d is U16 implies u16_under(m) == Some(d->U16_0) by { lemma_visit_u16(d, m); }
+    assert forall|d: DataType, m: MV| #[trigger] dt_matches(d, m) && d is Slice implies bytes_under(m) == Some(d->Slice_0@) by { lemma_visit_slice(d, m); }
+}"""
 # ---- parsers (C06: total on any bytes; unknown kinds are errors)
 G("from_stream", impl=r"impl PDU", props=["C06"], keys=True,
   ensures=[("C06", "monotone", "is_suffix(final(stream).rest(), old(stream).rest())"),
@@ -73,8 +77,11 @@ G("from_control", impl=r"impl PDU", props=["C06"], keys=True,
   requires=["has_key(control.fields(), \"pduType\"@)", "has_key(control.fields(), \"pduMessage\"@)"],
   ensures=[("C06", "known-kinds-only", "r is Ok ==> (r->Ok_0.pdu_type is PdutypeDemandactivepdu || r->Ok_0.pdu_type is PdutypeDatapdu || r->Ok_0.pdu_type is PdutypeConfirmactivepdu || r->Ok_0.pdu_type is PdutypeDeactivateallpdu)"),
            ("C06", "data-layout", "r is Ok && r->Ok_0.pdu_type is PdutypeDatapdu ==> share_data_fields(r->Ok_0.message.fields())"),
-           ("C06", "demand-active-layout", "r is Ok && r->Ok_0.pdu_type is PdutypeDemandactivepdu ==> demand_active_fields(r->Ok_0.message.fields())")],
-  hints=keep("pdu", """if pdu.pdu_type is PdutypeDemandactivepdu {
+           ("C06", "demand-active-layout", "r is Ok && r->Ok_0.pdu_type is PdutypeDemandactivepdu ==> demand_active_fields(r->Ok_0.message.fields())"),
+           # the kind of the result is the one carried by the wire field "pduType" (TS_SHARECONTROLHEADER.pduType)
+           ("C06,C12", "kind-is-the-wire-field", "r is Ok ==> wire_pdu_type(control.fields()) is Some && PDUType::from_repr(wire_pdu_type(control.fields())->Some_0) == Some(r->Ok_0.pdu_type)")],
+  hints=[(r"let pdu_type = cast!\(DataType::U16, control\[\"pduType\"\]\)\?;", 1, """proof { let m = fld(control.fields(), "pduType"@);
+            assert forall|d: DataType| #[trigger] dt_matches(d, m) && d is U16 implies u16_under(m) == Some(d->U16_0) by { lemma_visit_u16(d, m); } }""", "before")] + keep("pdu", """if pdu.pdu_type is PdutypeDemandactivepdu {
         lemma_read_keeps_elements(m0->Comp_0[6].1, pdu.message.fields()[6].1);
         let elems = pdu.message.fields()[6].1->Arr_0;
         assert forall|i: int| 0 <= i < elems.len() implies (#[trigger] elems[i]) is Comp && capability_set_fields(elems[i]->Comp_0) by {
@@ -118,12 +125,18 @@ G("read_data_pdu", impl=r"impl Client", props=["C06", "C12"], keys=True,
             forall|k: int| 0 <= k < __items@.len() ==> same_shape(share_control_view(0x11, 0, Seq::empty()), (#[trigger] __items@[k]).fview()),
             self.same_config(old(self)) && self.share() == old(self).share(),
             self.st() is DemandActivePDU || self.st() == old(self).st(),
+            // C12 deactivate-all-always-resets: a Deactivate All among the elements processed so far has reset the automaton, whatever follows it; without one the state is untouched
+            any_deactivate_all(__items@, __i as int) ==> self.st() is DemandActivePDU,
+            !any_deactivate_all(__items@, __i as int) ==> self.st() == old(self).st(),
         decreases __items.len() - __i"""},
   # rule R2 drops `println!(.., cast!(DataType::U32, data_pdu.message["errorInfo"])?)` with its argument: the dropped index / cast are checked here instead
-  claims=[(r"match data_pdu\.pdu_type \{", 1, """proof { lemma_keys(); let f = data_pdu.message.fields();
+  claims=[(r"Ok\(\(\)\)\s*\}\s*$", 1, """proof {
+            assert(any_deactivate_all(__items@, __items@.len() as int) ==> self.st() is DemandActivePDU);
+            assert(!any_deactivate_all(__items@, __items@.len() as int) ==> self.st() == old(self).st()); }""", "before", "C12", "deactivate-all-always-resets"),
+          (r"match data_pdu\.pdu_type \{", 1, """proof { lemma_keys(); let f = data_pdu.message.fields();
                         assert(data_pdu.pdu_type is Pdutype2SetErrorInfoPdu ==> has_key(f, "errorInfo"@) && fld(f, "errorInfo"@) is U32); }""", "before", "C06", "dropped-diagnostic-index-safe")],
   hints=[(r"let __items = message\.inner\(\);", 1, "proof { assert(message.mv() is Arr); assert forall|k: int| 0 <= k < __items@.len() implies same_shape(share_control_view(0x11, 0, Seq::empty()), (#[trigger] __items@[k]).fview()) by { assert(message.mv()->Arr_0[k] == __items@[k].fview()); } }", "atend"),
-         (r"__i \+= 1;", 1, "proof { lemma_keys(); lemma_read_keeps_layout(share_control_view(0x11, 0, Seq::empty()), pdu.fview()); }", "atend")],
+         (r"__i \+= 1;", 1, "proof { lemma_keys(); lemma_read_keeps_layout(share_control_view(0x11, 0, Seq::empty()), pdu.fview()); lemma_any_deactivate_all_step(__items@, __i - 1); }", "atend")],
   ensures=[("C12", "only-deactivate-resets", "final(self).st() is Data || final(self).st() is DemandActivePDU || final(self).st() == old(self).st()"),
            (None, "config", "final(self).same_config(old(self)) && final(self).share() == old(self).share()")])
 A(Raw(r"""
@@ -163,6 +176,26 @@ pub open spec fn is_event_of(e: RdpEvent, f: Seq<(Seq<char>, MV)>) -> bool {
     && (exists|flags: u16| Some(flags) == u16_under(fld(f, "flags"@)) && b.is_compress == ((flags & 1u16) != 0u16))
     && Some(b.data@) == bytes_under(fld(f, "bitmapDataStream"@))
 }
+/// the u16 carried by the "pduType" field of a share control header element
+pub open spec fn wire_pdu_type(f: Seq<(Seq<char>, MV)>) -> Option<u16> { u16_under(fld(f, "pduType"@)) }
+/// C12: the slow-path element `m` (layout share_control_view) is a Deactivate All PDU (PDUTYPE_DEACTIVATEALLPDU 0x16, MS-RDPBCGR 2.2.8.1.1.1.1)
+pub open spec fn is_deactivate_all(m: MV) -> bool { m is Comp && wire_pdu_type(m->Comp_0) == Some(0x16u16) }
+/// one of the first `n` parsed elements is a Deactivate All PDU
+pub open spec fn any_deactivate_all(items: Seq<Field>, n: int) -> bool { exists|k: int| 0 <= k < n && is_deactivate_all((#[trigger] items[k]).fview()) }
+pub proof fn lemma_any_deactivate_all_step(items: Seq<Field>, n: int)
+    requires 0 <= n < items.len()
+    ensures any_deactivate_all(items, n + 1) == (any_deactivate_all(items, n) || is_deactivate_all(items[n].fview()))
+{
+    if any_deactivate_all(items, n + 1) {
+        let k = choose|k: int| 0 <= k < n + 1 && is_deactivate_all((#[trigger] items[k]).fview());
+        if k < n { assert(any_deactivate_all(items, n)); }
+    }
+    if any_deactivate_all(items, n) {
+        let k = choose|k: int| 0 <= k < n && is_deactivate_all((#[trigger] items[k]).fview());
+        assert(0 <= k < n + 1 && is_deactivate_all(items[k].fview()));
+    }
+    if is_deactivate_all(items[n].fview()) { assert(0 <= n < n + 1 && is_deactivate_all(items[n].fview())); }
+}
 pub proof fn lemma_visit_u16(d: DataType, m: MV)
     requires dt_matches(d, m), d is U16
     ensures u16_under(m) == Some(d->U16_0)
@@ -179,10 +212,6 @@ pub proof fn lemma_visit_slice(d: DataType, m: MV)
 }
 """, mod="global", name="event_specs"))
 R9_SIG = [(r"<T>\(", "("), (r"mut callback: T", "callback: &mut EventSink"), (r"\s*where T: FnMut\(RdpEvent\)\s*", " ")]
-VISIT = """proof {
-    assert forall|d: DataType, m: MV| #[trigger] dt_matches(d, m) && d is U16 implies u16_under(m) == Some(d->U16_0) by { lemma_visit_u16(d, m); }
-    assert forall|d: DataType, m: MV| #[trigger] dt_matches(d, m) && d is Slice implies bytes_under(m) == Some(d->Slice_0@) by { lemma_visit_slice(d, m); }
-}"""
 G("read_fast_path", impl=r"impl Client", props=["C06", "C10", "C12"], keys=True,
   sig_sub=R9_SIG, body_sub=[(r"callback\(RdpEvent::Bitmap\(", "callback.call(RdpEvent::Bitmap(")],
   ensures=STATE_FRAME + [("C10", "appends-only", "appended_only(old(callback).calls(), final(callback).calls())"),
